@@ -18,10 +18,15 @@ pub mod alloc_count {
     pub static PEAK: AtomicUsize = AtomicUsize::new(0);
     pub static BIGGEST: AtomicUsize = AtomicUsize::new(0);
     pub struct Counting;
+    /// poison fresh heap memory (0xA5) so that a read of never-written memory is visible (engine `ring`)
+    pub static POISON: std::sync::atomic::AtomicBool = std::sync::atomic::AtomicBool::new(false);
     unsafe impl GlobalAlloc for Counting {
         unsafe fn alloc(&self, l: Layout) -> *mut u8 {
             let p = System.alloc(l);
             if !p.is_null() {
+                if POISON.load(Ordering::Relaxed) {
+                    p.write_bytes(0xA5, l.size());
+                }
                 let live = LIVE.fetch_add(l.size(), Ordering::Relaxed) + l.size();
                 PEAK.fetch_max(live, Ordering::Relaxed);
                 BIGGEST.fetch_max(l.size(), Ordering::Relaxed);
@@ -35,6 +40,9 @@ pub mod alloc_count {
         unsafe fn realloc(&self, p: *mut u8, l: Layout, new: usize) -> *mut u8 {
             let q = System.realloc(p, l, new);
             if !q.is_null() {
+                if new > l.size() && POISON.load(Ordering::Relaxed) {
+                    q.add(l.size()).write_bytes(0xA5, new - l.size());
+                }
                 if new >= l.size() {
                     let live = LIVE.fetch_add(new - l.size(), Ordering::Relaxed) + (new - l.size());
                     PEAK.fetch_max(live, Ordering::Relaxed);
